@@ -116,6 +116,18 @@ dispatch!(m, Mach, {
         core::any::type_name::<Mach>()
     }
 });
+dispatch_light128!(m, Mach, {
+    fn dispatched_machine_light128() -> &'static str {
+        let _ = m;
+        core::any::type_name::<Mach>()
+    }
+});
+dispatch_light256!(m, Mach, {
+    fn dispatched_machine_light256() -> &'static str {
+        let _ = m;
+        core::any::type_name::<Mach>()
+    }
+});
 
 // the type names of the x86 machines, taken from the tree under test through ppv-lite86's public aliases
 // (so the driver's implementation-selection oracle follows a rename of the underlying types)
@@ -177,7 +189,7 @@ fn main() {
     let taken: Vec<usize> = vec![];
     let q = |v: &Vec<String>| format!("[{}]", v.iter().take(12).map(|s| format!("\"{}\"", s.replace('"', "'").replace('\\', "/"))).collect::<Vec<_>>().join(","));
     println!(
-        "{{\"cases\":{},\"fingerprint\":\"{:016x}\",\"n_mismatches\":{},\"n_panics\":{},\"mismatches\":{},\"panics\":{},\"forced\":{},\"taken\":{:?},\"machine\":\"{}\",\"machine_names\":{}}}",
-        o.cases, o.fp, o.mism.len(), o.panics.len(), q(&o.mism), q(&o.panics), forced, taken, dispatched_machine(), machine_names()
+        "{{\"cases\":{},\"fingerprint\":\"{:016x}\",\"n_mismatches\":{},\"n_panics\":{},\"mismatches\":{},\"panics\":{},\"forced\":{},\"taken\":{:?},\"machine\":\"{}\",\"machine_light128\":\"{}\",\"machine_light256\":\"{}\",\"machine_names\":{}}}",
+        o.cases, o.fp, o.mism.len(), o.panics.len(), q(&o.mism), q(&o.panics), forced, taken, dispatched_machine(), dispatched_machine_light128(), dispatched_machine_light256(), machine_names()
     );
 }
